@@ -4,9 +4,9 @@ CONSTANT SetPws = {"p1", "p2", ""}
 CONSTANT TryPws = {"p1", "p2", "", "wrong"}
 CONSTANT Presenters = {1, 2}
 CONSTANT EpochIds = {1, 2, 3, 4, 5}
-CONSTANT MaxSteps = 10
+CONSTANT MaxSteps = 12
 CONSTANT Ops <- AllOps
 CONSTANT SessChecksDisabled = FALSE
-SPECIFICATION Spec
+SPECIFICATION SimSpec
 INVARIANT BehaviourExport
 CHECK_DEADLOCK FALSE
